@@ -375,8 +375,8 @@ def h11_parse_requests(data: bytes, eof: bool = False) -> Dict[str, Any]:
                     out['incomplete'] = True
                 break
             if ev is h11.PAUSED:
-                if conn.their_state is h11.DONE:
-                    # answer so that the next cycle can start
+                if conn.their_state is h11.DONE or conn.their_state is h11.MIGHT_SWITCH_PROTOCOL:
+                    # answer so that the next cycle can start (an upgrade request is declined with the same plain 200)
                     if conn.our_state is h11.SEND_RESPONSE:
                         conn.send(h11.Response(status_code=200, headers=[(b'content-length', b'0')]))
                         conn.send(h11.EndOfMessage())
